@@ -619,6 +619,27 @@ def fences : Nat → Heap → Nat → Nat → Nat → M (Heap × Nat)
     if nextp + SIZEOF_USIZE < old_end then fences fuel h nextp old_end (n + 1)
     else pure (h, n + 1)
 
+/-- the end of `add_segment`: what is left of the old `top` below the record becomes an ordinary
+binned free chunk -/
+def add_segment_oldtop (h : Heap) (csp old_top : Nat) : M Heap := do
+  if csp ≠ old_top then
+    let q := old_top
+    let psize := csp - old_top
+    let tn := q + psize
+    let h ← set_free_with_pinuse h q psize tn
+    insert_chunk (h.tag "addseg-oldtop-binned") q psize
+  else pure (h.tag "addseg-oldtop-consumed")
+
+/-- where `add_segment` puts the record of the old head segment: at the end of the old `top`
+(`old_end - 80`), or over the old `top` itself when that has fewer than MIN_CHUNK_SIZE bytes -/
+def addseg_csp (old_top old_end : Nat) : Nat :=
+  let ssize := pad_request SIZEOF_SEGMENT
+  let offset := ssize + SIZEOF_USIZE * 4 + MALLOC_ALIGNMENT - 1
+  let rawsp := old_end - offset
+  let offset := align_offset_usize (rawsp + MEM_OFFSET)
+  let asp := rawsp + offset
+  if asp < old_top + MIN_CHUNK_SIZE then old_top else asp
+
 def add_segment (s : St) (tbase tsize : Nat) : M St := do
   let old_top := s.h.top
   match segment_holding s.segs old_top with
@@ -626,12 +647,8 @@ def add_segment (s : St) (tbase tsize : Nat) : M St := do
   | some oldsp =>
     let old_end := oldsp.top
     let ssize := pad_request SIZEOF_SEGMENT
-    let offset := ssize + SIZEOF_USIZE * 4 + MALLOC_ALIGNMENT - 1
-    failIf (old_end < offset) "underflow:add_segment"
-    let rawsp := old_end - offset
-    let offset := align_offset_usize (rawsp + MEM_OFFSET)
-    let asp := rawsp + offset
-    let csp := if asp < old_top + MIN_CHUNK_SIZE then old_top else asp
+    failIf (old_end < ssize + SIZEOF_USIZE * 4 + MALLOC_ALIGNMENT - 1) "underflow:add_segment"
+    let csp := addseg_csp old_top old_end
     let sp := csp
     let ss := sp + MEM_OFFSET
     let tnext := sp + ssize
@@ -645,14 +662,7 @@ def add_segment (s : St) (tbase tsize : Nat) : M St := do
     let s := { s with segs := { base := tbase, size := tsize, recAt := 0 } :: segs }
     let (h, nf) ← fences 64 h tnext old_end 0
     failIf (nf < 2) "debug_assert:nfences"
-    let h ← (do
-      if csp ≠ old_top then
-        let q := old_top
-        let psize := csp - old_top
-        let tn := q + psize
-        let h ← set_free_with_pinuse h q psize tn
-        insert_chunk (h.tag "addseg-oldtop-binned") q psize
-      else pure (h.tag "addseg-oldtop-consumed") : M Heap)
+    let h ← add_segment_oldtop h csp old_top
     pure { s with h := h }
 
 /-- `(*sp).base = ..; (*sp).size += ..` on the record the search loop stopped at (the first match) -/
